@@ -830,9 +830,9 @@ func (h *rlyHist) script() []uint32 {
 	}
 	if c.Chance(0.15) { // an index already in HostMap.Relays
 		d := h.w.Dump()
-		for i := range d.Relays {
-			s = append(s, i)
-			break
+		keys := rlyIdxSet(nebula.VerifRelayDump{Relays: d.Relays}, nil)
+		if len(keys) > 0 {
+			s = append(s, keys[c.Intn(len(keys))])
 		}
 	}
 	for k := 0; k < 3; k++ {
@@ -1163,7 +1163,7 @@ func rlySelf(c *hx.Ctx) *rlyHist {
 }
 
 func runRelay(c *hx.Ctx) {
-	cw := c.NewCaseWriter("From NV Require Import lib.Relay_lib model.Relay corr.Relay_corr.", "Relay_corr.case", "Relay_corr.check_case", 8)
+	cw := c.NewCaseWriter("From NV Require Import lib.Relay_lib model.Relay corr.Relay_corr.", "Relay_corr.case", "Relay_corr.check_case", 16)
 	var failures []map[string]any
 	// 1. every row of both tables on a fresh situation
 	var rowLits []string
